@@ -6,7 +6,10 @@ package main
 
 import (
 	"fmt"
+	"go/token"
 	"go/types"
+	"os"
+	"sort"
 	"strings"
 
 	"golang.org/x/tools/go/ssa"
@@ -20,6 +23,17 @@ import (
 func (p *prover) contractFacts(s *factSet, t term, seen map[term]bool) {
 	if t.isLn || t.v == nil {
 		return
+	}
+	// n, err := read(p) through a value of the named type tcplistener.ioReader (io.Reader.Read contract:
+	// 0 <= n <= len(p)); who may supply such a function is checked by C07.R1i
+	if ex, ok := t.v.(*ssa.Extract); ok && ex.Index == 0 {
+		if rc, ok := ex.Tuple.(*ssa.Call); ok && !rc.Common().IsInvoke() && rc.Common().StaticCallee() == nil &&
+			typeName(rc.Common().Value.Type()) == "input/tcplistener.ioReader" && len(rc.Common().Args) == 1 {
+			s.le(zeroT(), t, 0)
+			s.le(t, lenT(rc.Common().Args[0]), 0)
+			p.defs(s, lenT(rc.Common().Args[0]), seen, 1)
+			p.noteUse("contract io.Reader.Read: 0 <= n <= len(p) for the connection reader passed to newMultiLineReader")
+		}
 	}
 	cl, ok := t.v.(*ssa.Call)
 	if !ok || !cl.Common().IsInvoke() {
@@ -107,6 +121,374 @@ func (p *prover) noteUse(what string) {
 
 func (p *prover) structFacts(s *factSet, fn *ssa.Function, at ssa.Instruction, seen map[term]bool) {
 	p.contractEntryFacts(s, fn, seen)
+	p.fieldLoadFacts(s, fn, seen)
+	p.structInvFacts(s, fn, seen)
 }
 
 func (p *prover) axiom(fn *ssa.Function, at ssa.Instruction, a, b term, c int64) bool { return false }
+
+// ---------------------------------------------------------------------------
+// Schema contract (class C): one LogSchema governs the process.
+//   SC1  every value of type base.LogFieldLocator is in [0, NF-1]            (NF = number of schema fields)
+//   SC2  len(LogRecord.Fields) = MF, NF <= MF                                 (MF = schema.maxFields)
+//   SC3  len(LogSchema.fieldNames) = len(GetFieldNames()) = NF, GetMaxFields() = MF
+// The producers are checked structurally by rule C07.R1s (who may create a locator, who may store Fields,
+// NewLogSchema's guard). NF and MF are symbolic constants of the engine.
+
+var (
+	symNF = ssa.NewConst(nil, types.Typ[types.UnsafePointer])
+	symMF = ssa.NewConst(nil, types.Typ[types.UnsafePointer])
+)
+
+func nfT() term { return term{v: symNF} }
+func mfT() term { return term{v: symMF} }
+
+func (p *prover) schemaBase(s *factSet) {
+	s.le(zeroT(), nfT(), 0)
+	s.le(nfT(), mfT(), 0)
+}
+
+// schemaFacts adds SC1..SC3 for term t; reports whether something was added
+func (p *prover) schemaFacts(s *factSet, t term) {
+	v := t.v
+	if v == nil || v == ssa.Value(symNF) || v == ssa.Value(symMF) {
+		return
+	}
+	if !t.isLn {
+		if typeName(v.Type()) == "base.LogFieldLocator" {
+			s.le(zeroT(), t, 0)
+			s.le(t, nfT(), -1)
+			p.schemaBase(s)
+			p.noteUse("schema contract SC1: a base.LogFieldLocator is a valid index into the schema's fields (producers checked by C07.R1s)")
+		}
+		if cl, ok := v.(*ssa.Call); ok {
+			if f := cl.Common().StaticCallee(); f != nil && isAnchor(f, "base.(*LogSchema).GetMaxFields") {
+				s.eq(t, mfT(), 0)
+				p.schemaBase(s)
+				p.noteUse("schema contract SC3: GetMaxFields() is the schema's maxFields")
+			}
+		}
+		if u, ok := v.(*ssa.UnOp); ok && u.Op == token.MUL {
+			if fa, ok := strip(u.X).(*ssa.FieldAddr); ok && fieldName(fa.X.Type(), fa.Field) == "base.LogSchema.maxFields" {
+				s.eq(t, mfT(), 0)
+				p.schemaBase(s)
+				p.noteUse("schema contract SC3: LogSchema.maxFields is the schema's maxFields")
+			}
+		}
+		if f, ok := v.(*ssa.Field); ok && fieldName(f.X.Type(), f.Field) == "base.LogSchema.maxFields" {
+			s.eq(t, mfT(), 0)
+			p.schemaBase(s)
+			p.noteUse("schema contract SC3: LogSchema.maxFields is the schema's maxFields")
+		}
+		return
+	}
+	fname := ""
+	switch x := v.(type) {
+	case *ssa.UnOp:
+		if fa, ok := strip(x.X).(*ssa.FieldAddr); ok && x.Op == token.MUL {
+			fname = fieldName(fa.X.Type(), fa.Field)
+		}
+	case *ssa.Field:
+		fname = fieldName(x.X.Type(), x.Field)
+	case *ssa.Call:
+		if f := x.Common().StaticCallee(); f != nil && isAnchor(f, "base.(*LogSchema).GetFieldNames") {
+			fname = "base.LogSchema.fieldNames"
+		}
+	}
+	switch fname {
+	case "base.LogRecord.Fields":
+		s.eq(t, mfT(), 0)
+		p.schemaBase(s)
+		p.noteUse("schema contract SC2: LogRecord.Fields has the schema's maxFields elements (producers checked by C07.R1s)")
+	case "base.LogSchema.fieldNames":
+		s.eq(t, nfT(), 0)
+		p.schemaBase(s)
+		p.noteUse("schema contract SC3: LogSchema.fieldNames has one element per schema field")
+	}
+}
+
+// ---------------------------------------------------------------------------
+// Immutable slice fields: a field that is only ever stored into a freshly allocated object (constructor)
+// keeps the length relations that hold at every such store:
+//   len(F) = NF, len(F) = MF, len(F) >= 1, len(F) = len(G) for fields F, G stored by the same constructor.
+
+type fieldLenFacts struct {
+	eqNF, eqMF bool
+	eqField    map[string]bool // fields of the same struct with equal length
+}
+
+func (p *prover) immutableLenFacts() map[string]*fieldLenFacts {
+	if p.fieldLens != nil {
+		return p.fieldLens
+	}
+	p.fieldLens = map[string]*fieldLenFacts{}
+	type storeT struct {
+		fn    *ssa.Function
+		at    *ssa.Store
+		base  ssa.Value
+		field string
+	}
+	byField := map[string][]storeT{}
+	for fn := range p.c.P.allFuncs {
+		if fn.Blocks == nil || !p.c.P.inUni[fn] {
+			continue
+		}
+		eachInstr(fn, func(in ssa.Instruction) {
+			st, ok := in.(*ssa.Store)
+			if !ok {
+				return
+			}
+			fa, ok := strip(st.Addr).(*ssa.FieldAddr)
+			if !ok || !isSeqType(st.Val.Type()) {
+				return
+			}
+			name := fieldName(fa.X.Type(), fa.Field)
+			if !p.immutableField[name] {
+				return
+			}
+			byField[name] = append(byField[name], storeT{fn, st, strip(fa.X), name})
+		})
+	}
+	var names []string
+	for n := range byField {
+		names = append(names, n)
+	}
+	sort.Strings(names)
+	saved := p.depth
+	for _, name := range names {
+		stores := byField[name]
+		ff := &fieldLenFacts{eqNF: true, eqMF: true, eqField: map[string]bool{}}
+		first := true
+		for _, st := range stores {
+			lv := lenT(st.at.Val)
+			p.depth = 1
+			if ff.eqNF && !(p.prove(st.fn, st.at, lv, nfT(), 0, nil) && p.prove(st.fn, st.at, nfT(), lv, 0, nil)) {
+				ff.eqNF = false
+			}
+			if ff.eqMF && !(p.prove(st.fn, st.at, lv, mfT(), 0, nil) && p.prove(st.fn, st.at, mfT(), lv, 0, nil)) {
+				ff.eqMF = false
+			}
+			// sibling fields stored into the same object in the same function
+			sib := map[string]bool{}
+			eachInstr(st.fn, func(in ssa.Instruction) {
+				o, ok := in.(*ssa.Store)
+				if !ok || o == st.at {
+					return
+				}
+				fa, ok := strip(o.Addr).(*ssa.FieldAddr)
+				if !ok || strip(fa.X) != st.base || !isSeqType(o.Val.Type()) {
+					return
+				}
+				other := fieldName(fa.X.Type(), fa.Field)
+				if !p.immutableField[other] {
+					return
+				}
+				lo := lenT(o.Val)
+				// proved at the later of the two stores
+				at := ssa.Instruction(st.at)
+				if o.Block() == st.at.Block() {
+					for _, i2 := range o.Block().Instrs {
+						if i2 == ssa.Instruction(o) {
+							at = o
+						}
+						if i2 == ssa.Instruction(st.at) {
+							at = st.at
+						}
+					}
+				} else if st.at.Block().Dominates(o.Block()) {
+					at = o
+				}
+				if p.prove(st.fn, at, lv, lo, 0, nil) && p.prove(st.fn, at, lo, lv, 0, nil) {
+					sib[other] = true
+				}
+			})
+			if first {
+				ff.eqField = sib
+				first = false
+			} else {
+				for k := range ff.eqField {
+					if !sib[k] {
+						delete(ff.eqField, k)
+					}
+				}
+			}
+		}
+		p.fieldLens[name] = ff
+	}
+	p.depth = saved
+	if os.Getenv("SLOGCHECK_F6INV") != "" {
+		for _, n := range names {
+			ff := p.fieldLens[n]
+			if ff.eqNF || ff.eqMF || len(ff.eqField) > 0 {
+				fmt.Printf("F6FIELD %s: eqNF=%v eqMF=%v eq=%v\n", n, ff.eqNF, ff.eqMF, ff.eqField)
+			}
+		}
+	}
+	return p.fieldLens
+}
+
+// fieldLoadFacts: length facts of loads of immutable fields in fn (per base object)
+func (p *prover) fieldLoadFacts(s *factSet, fn *ssa.Function, seen map[term]bool) {
+	if p.fieldLensBusy {
+		return
+	}
+	p.fieldLensBusy = true
+	fl := p.immutableLenFacts()
+	p.fieldLensBusy = false
+	type ld struct {
+		v     ssa.Value
+		base  ssa.Value
+		field string
+	}
+	loads, ok := p.loadCache[fn]
+	if !ok {
+		eachInstr(fn, func(in ssa.Instruction) {
+			u, ok := in.(*ssa.UnOp)
+			if !ok || u.Op != token.MUL || !isSeqType(u.Type()) {
+				return
+			}
+			fa, ok := strip(u.X).(*ssa.FieldAddr)
+			if !ok {
+				return
+			}
+			name := fieldName(fa.X.Type(), fa.Field)
+			if fl[name] == nil {
+				return
+			}
+			loads = append(loads, fieldLoad{u, resolve(fa.X), name})
+		})
+		p.loadCache[fn] = loads
+	}
+	for _, l := range loads {
+		lt := lenT(l.v)
+		if !seen[lt] {
+			continue
+		}
+		ff := fl[l.field]
+		if ff.eqNF {
+			s.eq(lt, nfT(), 0)
+			p.schemaBase(s)
+		}
+		if ff.eqMF {
+			s.eq(lt, mfT(), 0)
+			p.schemaBase(s)
+		}
+		for _, o := range loads {
+			if o.base == l.base && ff.eqField[o.field] {
+				s.eq(lt, lenT(o.v), 0)
+			}
+		}
+	}
+}
+
+type fieldLoad struct {
+	v     ssa.Value
+	base  ssa.Value
+	field string
+}
+
+// ---------------------------------------------------------------------------
+// length of a slice/string result of a module function: len(ret) = len(param_i), = NF or = MF
+
+type lenRetFact struct {
+	kind int // 0: len(param idx), 1: NF, 2: MF
+	idx  int
+}
+
+func (p *prover) lenRetSummary(callee *ssa.Function, ridx int) []lenRetFact {
+	k := retKey{callee, ridx}
+	if e, ok := p.lenRetCache[k]; ok {
+		return e
+	}
+	if p.depth >= 3 || p.retBusy[k] {
+		p.taint = true
+		return nil
+	}
+	rets := returnedValues(callee, ridx)
+	if len(rets) == 0 || len(rets) > 8 {
+		p.lenRetCache[k] = nil
+		return nil
+	}
+	p.retBusy[k] = true
+	defer delete(p.retBusy, k)
+	var cands []lenRetFact
+	for i, prm := range callee.Params {
+		if isSeqType(prm.Type()) {
+			cands = append(cands, lenRetFact{0, i})
+		}
+	}
+	cands = append(cands, lenRetFact{1, 0}, lenRetFact{2, 0})
+	var out []lenRetFact
+	p.depth++
+	for _, cd := range cands {
+		var other term
+		switch cd.kind {
+		case 0:
+			other = term{v: callee.Params[cd.idx], isLn: true}
+		case 1:
+			other = nfT()
+		case 2:
+			other = mfT()
+		}
+		ok := true
+		for _, rv := range rets {
+			if kc, isK := strip(rv.Val).(*ssa.Const); isK && kc.IsNil() {
+				ok = false // nil result (error path): no length relation claimed
+				break
+			}
+			lt := lenT(rv.Val)
+			if !(p.prove(callee, rv.At, lt, other, 0, nil) && p.prove(callee, rv.At, other, lt, 0, nil)) {
+				ok = false
+				break
+			}
+		}
+		if ok {
+			out = append(out, cd)
+		}
+	}
+	p.depth--
+	p.lenRetCache[k] = out
+	return out
+}
+
+func (p *prover) lenSummaryFacts(s *factSet, t term, seen map[term]bool) {
+	if !t.isLn || t.v == nil {
+		return
+	}
+	var cl *ssa.Call
+	ridx := 0
+	switch x := t.v.(type) {
+	case *ssa.Call:
+		cl = x
+	case *ssa.Extract:
+		if c2, ok := x.Tuple.(*ssa.Call); ok {
+			cl, ridx = c2, x.Index
+		}
+	}
+	if cl == nil {
+		return
+	}
+	callee := cl.Common().StaticCallee()
+	if callee == nil || callee.Blocks == nil || !strings.HasPrefix(fnPkgPath(callee), modPath) || ridx >= callee.Signature.Results().Len() {
+		return
+	}
+	if !isSeqType(callee.Signature.Results().At(ridx).Type()) {
+		return
+	}
+	for _, f := range p.lenRetSummary(callee, ridx) {
+		switch f.kind {
+		case 0:
+			if f.idx < len(cl.Common().Args) {
+				o := lenT(cl.Common().Args[f.idx])
+				s.eq(t, o, 0)
+				p.defs(s, o, seen, 1)
+			}
+		case 1:
+			s.eq(t, nfT(), 0)
+			p.schemaBase(s)
+		case 2:
+			s.eq(t, mfT(), 0)
+			p.schemaBase(s)
+		}
+	}
+}
